@@ -19,13 +19,39 @@ from props import visitlib as vl
 
 PID = "C08"
 
-MOD = "def imp_fn(z):\n    return z.mark_imp\n\ndef mod_fn(z):\n    return z.mark_mod\n"
+MOD = """def imp_fn(z):
+    return z.mark_imp
+
+def mod_fn(z):
+    return z.mark_mod
+
+class Store:
+    def mod_fn(self, z):
+        return z.mark_method
+
+store = Store()
+
+def make():
+    return Store()
+
+def apply_fn(target_fn, z):
+    return target_fn(z)
+
+class Node:
+    def __init__(self, z):
+        self.s = z.mark_modnode
+
+def build(z):
+    n = Node(z)
+    return n
+"""
 
 DEFS = {
     "fn": "def target_fn(z):\n    return z.mark_fn\n",
     "lam": "target_lam = lambda z: z.mark_lam\n",
     "cls": "class TargetCls:\n    def __init__(self, z):\n        self.s = z.mark_cls\n",
     "static": "class Holder:\n    @staticmethod\n    def sm(z):\n        return z.mark_sm\n",
+    "decoy_node": "def Node(z):\n    return z.mark_wrongnode\n",
 }
 IMPORTS = "import mod\nimport mod as m2\nfrom mod import imp_fn\n"
 
@@ -79,13 +105,20 @@ def callers():
     add("c_param_holder", "def c_param_holder(Holder, v):\n    Holder.sm(v)\n", None, ("dotted", "static-method", "function-parameter"))
     add("c_obj_static", "def c_obj_static(obj, v):\n    obj.sm(v)\n    obj.Holder.sm(v)\n", None, ("method-on-object", "static-method", "none"))
     add("c_mod_missing", "def c_mod_missing(v):\n    mod.no_such_member(v)\n", None, ("dotted", "module-import-missing-member", "none"))
+    # across modules: same-named symbols in the other file must not be picked
+    add("c_mod_attr_method", "def c_mod_attr_method(v):\n    mod.store.mod_fn(v)\n", None, ("method-on-module-attribute", "module-import", "none"))
+    add("c_mod_call_method", "def c_mod_call_method(v):\n    mod.make().mod_fn(v)\n", None, ("method-on-module-call-result", "module-import", "none"))
+    add("c_cross_param", "def c_cross_param(v, u, w):\n    target_fn(v)\n    mod.apply_fn(w, u)\n", ("exact", ["v.mark_fn"]),
+        ("cross-module", "parameter-of-imported-function-named-like-target-function", "function-parameter"))
+    add("c_cross_class", "def c_cross_class(v):\n    mod.build(v)\n", ("exact", ["v.mark_modnode"]),
+        ("cross-module", "class-of-imported-module-named-like-target-function", "none"))
     return out
 
 
 def build_target(rng, callers_first):
     cs = callers()
     rng.shuffle(cs)
-    defs = [DEFS[k] for k in ("fn", "lam", "cls", "static")]
+    defs = [DEFS[k] for k in ("fn", "lam", "cls", "static", "decoy_node")]
     rng.shuffle(defs)
     body = "\n".join(c[1] for c in cs)
     if callers_first:
@@ -156,7 +189,14 @@ def run(tier, seed, build):
                 else:
                     want = [f"x.{expect}" if False else None]
                     want = None
-                if expect is None or isinstance(expect, tuple):
+                if isinstance(expect, tuple) and expect[0] == "exact":
+                    if got == sorted(expect[1]):
+                        res.count("verdict:holds:exact")
+                    else:
+                        sig = f"wrong-callee-across-modules:{row[1]}"
+                        res.count("verdict:" + sig)
+                        res.violations.append({"signature": sig, "case": case, "marks": got, "expected": expect[1]})
+                elif expect is None or isinstance(expect, tuple):
                     if got:
                         if row[0] == "on-call-result":
                             sig = "inlined-through-call-on-call-result"
